@@ -120,6 +120,7 @@ type Exec struct {
 	retN     int
 	retN2    int
 	presSorts map[string]string
+	epochComps map[int]map[string]string
 	ghostOn  bool
 }
 
@@ -204,6 +205,10 @@ func (e *Exec) oblige(st *State, kind, anchor string, goal *Term, pos string, as
 				return nil
 			}
 		}
+	} else if kind == "on-store" && e.curIn != nil && e.curFr != nil {
+		if n := e.P.staticOrdinal(e.curFr.fn, e.curIn, "store:"+strings.SplitN(strings.SplitN(anchor, ":", 2)[0], "=", 2)[0]); n > 1 {
+			local += fmt.Sprintf("#%d", n)
+		}
 	} else {
 		e.anchorN[base]++
 		if n := e.anchorN[base]; n > 1 {
@@ -250,6 +255,13 @@ func (e *Exec) heapGet(st *State, comp, sort string) *Term {
 	if !e.declared[n] {
 		e.declared[n] = true
 		e.emit("(declare-const %s %s)", n, sort)
+		if e.epochComps == nil {
+			e.epochComps = map[int]map[string]string{}
+		}
+		if e.epochComps[st.epoch] == nil {
+			e.epochComps[st.epoch] = map[string]string{}
+		}
+		e.epochComps[st.epoch][comp] = sort
 	}
 	return &Term{n, sort}
 }
@@ -713,6 +725,18 @@ func (e *Exec) mergeStates(ins []*State) *State {
 	for _, s := range ins {
 		for k := range s.heap {
 			keys[k] = true
+		}
+	}
+	if !same {
+		// components that were read through an epoch default in one of the joined histories keep their
+		// value on that path: make them explicit so that the join is an ite, not a forgotten value
+		for _, s := range ins {
+			for comp, srt := range e.epochComps[s.epoch] {
+				if _, ok := s.heap[comp]; !ok {
+					s.heap[comp] = &Term{fmt.Sprintf("%s!e%d", comp, s.epoch), srt}
+				}
+				keys[comp] = true
+			}
 		}
 	}
 	var ks []string
